@@ -19,7 +19,9 @@ REPO = os.environ.get("VERIF_REPO", "/repo")
 SCRATCH = "/tmp/srctie_scratch/selftest"
 BUILD_LIB = os.path.join(LEAN_DIR, ".lake", "build", "lib", "lean")
 PROOFS = ["PQ/Lemmas/SrcEquivBase.lean", "PQ/Lemmas/SrcEquiv.lean", "PQ/Lemmas/SrcEquivStore.lean",
-          "PQ/Lemmas/SrcEquivDQ.lean", "PQ/Lemmas/SrcEquivOps.lean"]
+          "PQ/Lemmas/SrcEquivDQ.lean", "PQ/Lemmas/SrcEquivOps.lean", "PQ/Lemmas/SrcEquivStore2.lean",
+          "PQ/Lemmas/SrcEquivPush.lean", "PQ/Lemmas/SrcEquivOps2.lean", "PQ/Lemmas/SrcEquivBulk.lean",
+          "PQ/Lemmas/SrcEquivIter.lean"]
 
 ST, PQ, DQ = "src/store.rs", "src/priority_queue/mod.rs", "src/double_priority_queue/mod.rs"
 # (name, file, old text, new text, which occurrence (0-based), kind)   kind: "mutant" | "neutral"
@@ -64,6 +66,53 @@ EDITS = [
      "self.find_min().and_then(|i| {\n            let r = self.store.swap_remove(i);", 0, "mutant"),
     ("dq_find_min_nonempty", DQ, "            0 => None,\n            _ => Some(Position(0)),",
      "            0 => None,\n            _ => Some(Position(1)),", 0, "mutant"),
+    # ---- phase 5.1: the remaining Store functions
+    ("store_clear_order", ST, "        self.size = 0;\n        self.map.clear();",
+     "        self.map.clear();\n        self.size = 0;", 0, "mutant"),
+    ("store_clear_forgets_qp", ST, "        self.qp.clear();\n", "", 1, "mutant"),
+    ("store_drain_keeps_size", ST, "        self.qp.clear();\n        self.size = 0;\n\n        Drain {",
+     "        self.qp.clear();\n\n        Drain {", 0, "mutant"),
+    ("store_retain_mut_range", ST, "self.heap = (0..self.size).map(Index).collect();",
+     "self.heap = (0..self.size + 1).map(Index).collect();", 0, "mutant"),
+    ("store_retain_mut_no_size", ST, "            self.size = self.map.len();\n", "", 0, "mutant"),
+    ("store_append_cmp", ST, "if other.size > self.size {", "if other.size >= self.size {", 0, "mutant"),
+    ("store_append_index", ST, "                let i = self.size;\n                self.map.insert(k, v);",
+     "                let i = self.map.len();\n                self.map.insert(k, v);", 0, "mutant"),
+    ("store_swap_remove_if_negated", ST, "if f(i, p) {", "if !f(i, p) {", 0, "mutant"),
+    ("store_change_priority_no_swap", ST, "            swap(p, &mut new_priority);\n", "", 0, "mutant"),
+    ("store_change_priority_by_no_call", ST, "            priority_setter(p);\n", "", 0, "mutant"),
+    # ---- phase 5.2: public wrappers
+    ("pq_push_no_count", PQ, "        self.store.size += 1;\n", "", 0, "mutant"),
+    ("pq_push_wrong_fix", PQ, "            self.up_heapify(pos);\n            return oldp;",
+     "            self.heapify(pos);\n            return oldp;", 0, "mutant"),
+    ("dq_push_wrong_position", DQ, "self.store.qp.push(Position(i));", "self.store.qp.push(Position(i + 1));", 0, "mutant"),
+    ("dq_push_table_order", DQ, "pos = unsafe { *self.store.qp.get_unchecked(e.index()) };",
+     "pos = unsafe { *self.store.heap.get_unchecked(e.index()) };", 0, "mutant"),
+    ("pq_change_priority_no_fix", PQ, "                self.up_heapify(pos);\n                r", "                r", 0, "mutant"),
+    ("dq_change_priority_no_fix", DQ, "                self.up_heapify(pos);\n                r", "                r", 0, "mutant"),
+    ("pq_change_priority_by_no_fix", PQ, "            .map(|pos| {\n                self.up_heapify(pos);",
+     "            .map(|pos| {\n                self.heapify(pos);", 0, "mutant"),
+    ("dq_change_priority_by_no_fix", DQ, "            .map(|pos| {\n                self.up_heapify(pos);",
+     "            .map(|pos| {\n                self.heapify(pos);", 0, "mutant"),
+    ("pq_push_increase_cmp", PQ, "map_or(true, |p| priority > *p)", "map_or(true, |p| priority < *p)", 0, "mutant"),
+    ("pq_push_decrease_cmp", PQ, "map_or(true, |p| priority < *p)", "map_or(true, |p| priority > *p)", 0, "mutant"),
+    ("dq_push_increase_cmp", DQ, "map_or(true, |p| priority > *p)", "map_or(true, |p| priority < *p)", 0, "mutant"),
+    ("dq_push_decrease_default", DQ, "map_or(true, |p| priority < *p)", "map_or(false, |p| priority < *p)", 0, "mutant"),
+    ("pq_pop_if_position", PQ, "1 => self.store.swap_remove_if(Position(0), predicate),",
+     "1 => self.store.swap_remove_if(Position(1), predicate),", 0, "mutant"),
+    ("dq_pop_min_if_fix", DQ, "let r = self.store.swap_remove_if(i, f);\n            self.heapify(i);",
+     "let r = self.store.swap_remove_if(i, f);\n            self.up_heapify(i);", 0, "mutant"),
+    ("dq_pop_max_if_fix", DQ, "let r = self.store.swap_remove_if(i, f);\n            self.up_heapify(i);",
+     "let r = self.store.swap_remove_if(i, f);\n            self.heapify(i);", 0, "mutant"),
+    ("pq_peek_last", PQ, "            .first()\n", "            .last()\n", 0, "mutant"),
+    ("dq_peek_min_table", DQ, ".get_index(unsafe { *self.store.heap.get_unchecked(i.0) }.0)",
+     ".get_index(unsafe { *self.store.qp.get_unchecked(i.0) }.0)", 0, "mutant"),
+    ("dq_peek_max_uses_min", DQ, "self.find_max().and_then(|i| {\n            self.store\n                .map",
+     "self.find_min().and_then(|i| {\n            self.store\n                .map", 0, "mutant"),
+    ("pq_peek_mut_guard", PQ, "if self.store.size == 0 {\n            return None;", "if self.store.size == 1 {\n            return None;", 0, "mutant"),
+    ("dq_peek_min_mut_uses_max", DQ, "self.find_min()\n            .and_then(move |i| {", "self.find_max()\n            .and_then(move |i| {", 0, "mutant"),
+    ("dq_peek_max_mut_table", DQ, ".get_index_mut2(unsafe { *self.store.heap.get_unchecked(i.0) }.0)",
+     ".get_index_mut2(unsafe { *self.store.qp.get_unchecked(i.0) }.0)", 1, "mutant"),
     ("dq_comment_only", DQ, "fn heapify_min(&mut self, mut i: Position) {",
      "fn heapify_min(&mut self, mut i: Position) {\n        // trickle down on a min level", 0, "neutral"),
     ("comment_only", PQ, "fn heapify(&mut self, mut i: Position) {",
